@@ -192,7 +192,7 @@ def quote_rule(repo, res, tier, rule="SK-QUOTE"):
     for key, (ok, why, line) in sorted(seen.items()):
         res.check(ok, rule, key, why, f"bash skeleton line {line}")
     res.check(n_words > 0, rule, f"{rule}:split:scanned", f"{n_words} command words / array elements / for-list words scanned for unquoted expansions of text variables over {len(sets)} flag assignments", "")
-    d0 = dims_for(repo, sets[1])[0]
+    d0 = dims_for(repo, dict.fromkeys(names, True))[0]
     res.engines.setdefault("K", {})["bash_flag_assignments"] = len(sets)
     res.engines["K"]["bash_eq_tests_seen"] = n_tests
     res.engines["K"]["bash_evals_seen"] = n_eval
@@ -778,7 +778,7 @@ def matchfn_rule(repo, res, tier, rule="SK-MATCHFN"):
         if k not in agg or (agg[k][0] and not ok):
             agg[k] = (ok, why, line)
 
-    for flags in sets[:2]:
+    for flags in (dict.fromkeys(names, False), dict.fromkeys(names, True)):
         text, tree, funcs, _ = skeleton(repo, flags)
         defs = funcs.get("H__MATCH_FN_NAME__H", [])
         rec("definitions", len(defs) == 2, f"{len(defs)} definitions of the prefix matcher (case-insensitive and case-sensitive variant)", defs[0].line if defs else 0)
@@ -887,7 +887,7 @@ def subacc_rule(repo, res, tier, rule="SK-SUBACC"):
     reaches the end of the word is conditioned on a test of the reached state against some table of accepting states that the
     wrapper defines (any name); with no such table the prefix `--foo=` of `--foo=(a|b)` counts as a complete word."""
     names, sets = flag_sets(repo, tier)
-    flags = sets[1]
+    flags = dict.fromkeys(names, True)
     text, tree, funcs, _ = skeleton(repo, flags)
     subs = funcs.get(SUB, [])
     if len(subs) != 1:
